@@ -5,7 +5,7 @@
    (Escape.v ~ format.rs escapers / parser.rs string processing) and layout (Pretty.v ~ pretty.rs).
    The user-visible property is decided by the end-to-end real-vs-real search of vplib/props/c17.py.
    This file contains ONLY the property theorems, each closed by `exact <lemma>`. *)
-From Quiver Require Import Base Ast Simplify SimplifyProofs Escape EscapeProofs Pretty PrettyProofs.
+From Quiver Require Import Base Ast Simplify SimplifyProofs SimplifyCompose Escape EscapeProofs Pretty PrettyProofs EscapePretty.
 
 (* ---- normalize_blocks ---------------------------------------------------------------------- *)
 (* compiler.rs:548: keep = |_| false, lift = true, group_consequences = false *)
@@ -32,21 +32,15 @@ Theorem C17_normalize_idempotent : forall o p,
 Proof. intros o p H. exact (normalize_idempotent_gen o p H). Qed.
 Print Assumptions C17_normalize_idempotent.
 
-(* format_then_compile_same ("identical after removing no-op blocks"), full statement:
-     forall k p, normalize_blocks (normalize_blocks p (formatter_options k)) compiler_options
-                 = normalize_blocks p compiler_options.
-   It is FALSE for the code as it is (finding F19): a block kept because of trivia hides that its body ends
-   in a tail call, so the enclosing redundant block is spliced by the formatter in a non-final position
-   while the compiler keeps it. Witness: `$ { 1 { /* comment */ 2 ^ } } 3`.
-   NOT PROVED (partial): the conditional statement
-     (forall c, ends_in_tail_call c = true -> k c = false) -> [the equation above]
-   is only validated: the harness evaluates the equation on the real normalize_blocks for every generated
-   source and every keep predicate of the correspondence (c17.py, `cf`). *)
-Theorem C17_format_then_compile_same_refuted :
-  exists p k, normalize_blocks (normalize_blocks p (formatter_options k)) compiler_options
-              <> normalize_blocks p compiler_options.
-Proof. exact format_then_compile_same_refuted. Qed.
-Print Assumptions C17_format_then_compile_same_refuted.
+(* format_then_compile_same ("identical after removing no-op blocks"): normalising with the formatter's options and then
+   with the compiler's gives what the compiler's options give alone, for EVERY keep predicate (so in particular for the real
+   closure `|chain| trivia.has_trivia(chain.span)`, `keep_by_span`). Holds for simplify.rs as repaired by /repo commit
+   e176e48 (finding F19: the "body ends in a tail call" test now looks through a kept trailing redundant block); on the
+   pre-repair model it was false — SimplifyProofs.v keeps the old witness as the Example `f19_pre_repair_test_missed_it`. *)
+Theorem C17_format_then_compile_same : forall (k : chain -> bool) (p : program),
+  normalize_blocks (normalize_blocks p (formatter_options k)) compiler_options = normalize_blocks p compiler_options.
+Proof. exact format_then_compile_same. Qed.
+Print Assumptions C17_format_then_compile_same.
 
 (* normalize_preserves_eval (stripping / lifting / grouping a no-op block preserves the reference meaning)
    needs the reference evaluator Lang.eval of C02 and is left to C02 (DESIGN.md §5 C02). *)
@@ -65,8 +59,9 @@ Print Assumptions C17_escape_roundtrip_single_scan.
 
 (* multi-line: raw text between the delimiters as rendered at any margin (incl. \s protection of trailing spaces,
    CR/TAB/backslash/quote/brace escapes, empty lines) is de-indented and decoded back to the string.
-   The model of the printer strips only the indentation of empty lines; the real printer's trim_end
-   (Unicode White_Space) and collapse_blanks are outside this theorem: they are findings F18 and F15. *)
+   `render_multiline` assumes that the printer leaves a rendered line alone and drops the indentation of an empty one:
+   that assumption is the theorem C17_rendered_line_survives_strip below (pretty.rs strips only ' ' and TAB since the
+   F18 repair). Not modelled: format.rs collapse_blanks (string-aware since the F15 repair; validated end-to-end). *)
 Theorem C17_escape_roundtrip_multiline : forall (s : list Z) (margin : nat),
   process_multiline (render_multiline s margin) = Some s.
 Proof. exact multiline_roundtrip. Qed.
@@ -83,6 +78,14 @@ Theorem C17_escape_multiline_raw_scan : forall (s : list Z) (margin : nat) (rest
   scan_multiline_raw (render_multiline s margin ++ [34; 34; 34] ++ rest) = Some (render_multiline s margin, rest).
 Proof. exact multiline_raw_scan. Qed.
 Print Assumptions C17_escape_multiline_raw_scan.
+
+(* the printer's trailing-whitespace stripping (Pretty.trim_end = `trim_end_matches([' ', '\t'])`) applied to a rendered
+   line printed at any indentation gives exactly what `render_multiline` assumes (`indent_line`): the whole line, or
+   nothing for an empty line — for every string, also when a line ends in U+00A0 or another non-ASCII space *)
+Theorem C17_rendered_line_survives_strip : forall (margin : nat) (l : list Z),
+  Pretty.trim_end (repeat 32 margin ++ render_line l) = indent_line margin (render_line l).
+Proof. exact rendered_line_survives_strip. Qed.
+Print Assumptions C17_rendered_line_survives_strip.
 
 (* ---- layout (Pretty.v ~ pretty.rs) -------------------------------------------------------------------- *)
 (* print is total: the explicit fuel `enough_fuel d` suffices for every doc and width *)
